@@ -499,9 +499,39 @@ static long long decode_str(const char* p) {
 }
 static long long in_range(long long id) { return id >= 0 && id < 32 ? id : -2; }
 
+// A mock function body may read an integer return value through a WIDER getter than the type it was set with (the conversions the getters
+// document: int -> any type that holds it, unsigned int -> long / unsigned long / long long / unsigned long long, long -> long long,
+// unsigned long -> unsigned long long): the number must come back unchanged. wide: 1 unsigned int, 2 long, 3 unsigned long, 4 long long, 5 unsigned long long.
+typedef __int128 wide_t;
+static wide_t fetch_wide(MockActualCall& ac, MockSupport& ms, int how, int wide, bool& gotDefault) {
+    switch (wide) {
+    case 1: { unsigned d = 77u, v = how == F_CALL_TYPED ? ac.returnUnsignedIntValue() : how == F_CALL_GENERIC ? ac.returnValue().getUnsignedIntValue() : how == F_MOCK_TYPED ? ms.unsignedIntReturnValue() : ac.returnUnsignedIntValueOrDefault(d);
+              gotDefault = how == F_ORDEFAULT && v == d; return (wide_t) v; }
+    case 2: { long d = 77, v = how == F_CALL_TYPED ? ac.returnLongIntValue() : how == F_CALL_GENERIC ? ac.returnValue().getLongIntValue() : how == F_MOCK_TYPED ? ms.longIntReturnValue() : ac.returnLongIntValueOrDefault(d);
+              gotDefault = how == F_ORDEFAULT && v == d; return (wide_t) v; }
+    case 3: { unsigned long d = 77, v = how == F_CALL_TYPED ? ac.returnUnsignedLongIntValue() : how == F_CALL_GENERIC ? ac.returnValue().getUnsignedLongIntValue() : how == F_MOCK_TYPED ? ms.unsignedLongIntReturnValue() : ac.returnUnsignedLongIntValueOrDefault(d);
+              gotDefault = how == F_ORDEFAULT && v == d; return (wide_t) v; }
+    case 4: { long long d = 77, v = how == F_CALL_TYPED ? ac.returnLongLongIntValue() : how == F_CALL_GENERIC ? ac.returnValue().getLongLongIntValue() : how == F_MOCK_TYPED ? ms.longLongIntReturnValue() : ac.returnLongLongIntValueOrDefault(d);
+              gotDefault = how == F_ORDEFAULT && v == d; return (wide_t) v; }
+    default: { unsigned long long d = 77, v = how == F_CALL_TYPED ? ac.returnUnsignedLongLongIntValue() : how == F_CALL_GENERIC ? ac.returnValue().getUnsignedLongLongIntValue() : how == F_MOCK_TYPED ? ms.unsignedLongLongIntReturnValue() : ac.returnUnsignedLongLongIntValueOrDefault(d);
+               gotDefault = how == F_ORDEFAULT && v == d; return (wide_t) v; }
+    }
+}
+static unsigned long g_wideFetches[6];
 // fetch the return value the way a mock function body would; returns the decoded expectation id (-2: not one of ours)
-static long long fetch_typed(MockActualCall& ac, MockSupport& ms, int how, int rt, bool& gotDefault) {
+static long long fetch_typed(MockActualCall& ac, MockSupport& ms, int how, int rt, bool& gotDefault, unsigned sel = 0) {
     gotDefault = false;
+    {
+        static const int W_INT[] = { 0, 1, 2, 3, 4, 5 }, W_UINT[] = { 0, 2, 3, 4, 5 }, W_LONG[] = { 0, 4 }, W_ULONG[] = { 0, 5 };
+        int wide = rt == R_INT ? W_INT[sel % 6] : rt == R_UINT ? W_UINT[sel % 5] : rt == R_LONG ? W_LONG[sel % 2] : rt == R_ULONG ? W_ULONG[sel % 2] : 0;
+        if (wide) {
+            wide_t v = fetch_wide(ac, ms, how, wide, gotDefault);
+            if (gotDefault) return -1;
+            g_wideFetches[wide]++;
+            wide_t id = rt == R_INT ? v - (wide_t) (INT_MAX - 40) : rt == R_UINT ? v - (wide_t) (UINT_MAX - 40u) : rt == R_LONG ? v - (wide_t) LONG_MIN : (wide_t) ULONG_MAX - v;
+            return id >= 0 && id < 32 ? (long long) id : -2;
+        }
+    }
     switch (rt) {
     case R_INT: { int d = -77, v = how == F_CALL_TYPED ? ac.returnIntValue() : how == F_CALL_GENERIC ? ac.returnValue().getIntValue() : how == F_MOCK_TYPED ? ms.intReturnValue() : ac.returnIntValueOrDefault(d);
                   if (how == F_ORDEFAULT && v == d) { gotDefault = true; return -1; } return in_range((long long) v - (INT_MAX - 40)); }
@@ -558,7 +588,7 @@ static bool run_call(const CallD& c, CallRec& r) {
         }
     }
     r.fetched = true;
-    r.retId = fetch_typed(ac, ms_of(c.scope), c.fetch, c.retType, r.gotDefault);
+    r.retId = fetch_typed(ac, ms_of(c.scope), c.fetch, c.retType, r.gotDefault, (unsigned) (c.items.size() * 5 + c.name.size() * 3 + (unsigned) (c.intended + 1)));
     return !rec_failed();
 }
 
@@ -844,6 +874,8 @@ static void judge(Sink& c, const Scenario& s, const Model& m, const Observed& o)
             if (dataAfterEmpty) c.count("calls_with_data_output_passed_after_unmodified_or_zero_sized_output");
         }
         if (retObservable) c.count("return_values_checked");
+        { static const char* WN[6] = { "", "unsigned_int", "long", "unsigned_long", "long_long", "unsigned_long_long" };
+          for (int w = 1; w < 6; w++) if (g_wideFetches[w]) { c.count(std::string("return_values_read_through_a_wider_getter_") + WN[w], g_wideFetches[w]); g_wideFetches[w] = 0; } }
         c.count("calls_consumed");
     }
 
